@@ -16,7 +16,7 @@ func runC10(c *Ctx) {
 	p := c.P
 	c.Rule("C10-R1", "comments parsed and excluded text blanked before a line is published; writers of the line buffer", 6)
 	c.Rule("C10-R2", "nothing is collected from lines excluded by an earlier comment; such lines are blanked completely", 8)
-	c.Rule("C10-R3", "blanking preserves line structure", 4)
+	c.Rule("C10-R3", "blanking preserves line structure; offsets in byte units", 5)
 	c.Rule("C10-R4", "inside ignore/begin only ignore/end ends the exclusion", 4)
 
 	const CR = "internal/parser.ContentReader"
@@ -310,6 +310,35 @@ func runC10(c *Ctx) {
 			})
 			c.Check(notNL, "C10-R3", "emptyCurrentLine:newline never overwritten", as.Pos(), "guarded", "the line terminator can be blanked (lines merge, every later position shifts)")
 		}
+		// the comment offset compared with byte indexes of r.buf is itself a byte offset:
+		// comments.parseComment takes it from ranging over a string (not over []rune)
+		if pcm := c.MustFunc("C10-R3", "internal/comments.parseComment"); pcm != nil {
+			cinfo := pcm.Pkg.TypesInfo
+			n, good := 0, 0
+			ast.Inspect(pcm.Decl.Body, func(nd ast.Node) bool {
+				as, ok := nd.(*ast.AssignStmt)
+				if !ok || len(as.Lhs) != 1 || !fieldSel(cinfo, as.Lhs[0], "internal/comments.Comment", "Offset") {
+					return true
+				}
+				n++
+				idx := objOf(cinfo, as.Rhs[0])
+				ast.Inspect(pcm.Decl.Body, func(m ast.Node) bool {
+					rs, ok := m.(*ast.RangeStmt)
+					if !ok {
+						return true
+					}
+					if k, ok := rs.Key.(*ast.Ident); ok && cinfo.Defs[k] == idx && idx != nil {
+						if b, ok := cinfo.TypeOf(rs.X).Underlying().(*types.Basic); ok && b.Kind() == types.String {
+							good++
+						}
+					}
+					return true
+				})
+				return true
+			})
+			c.Check(n >= 1 && n == good, "C10-R3", "comment offsets are byte offsets (producer ranges over a string)", pcm.Decl.Pos(), "byte index", "Comment.Offset is no longer the byte index obtained from ranging over the line string, but emptyCurrentLine compares it with byte indexes of r.buf: multi-byte text before an ignore comment is only partly blanked")
+		}
+		// the consumer compares the offset with an index into r.buf
 		// no reslice/append of r.buf in the blanking path
 		bad := ""
 		for _, fi := range []*FuncInfo{ecl, pc} {
